@@ -308,6 +308,7 @@ def st_kernel_q(st, wide=False):
                 st.sampled_from(["auto_po2", "auto_po2", "none_as_auto"])),
       st.builds(lambda b, mv: {"t": "po2", "bits": b, "mv": mv},
                 st.integers(3, 5), st.sampled_from([None, None, 2.0, 4.0, 1.0, 0.5])),
+      st.builds(lambda b: {"t": "po2", "bits": b, "mv": None}, st.integers(3, 5)),
       st.just({"t": "bin"}), st.just({"t": "ter"}))
 
 
